@@ -233,7 +233,7 @@ func tickBoundariesAll(run *sim.Run) {
 		}
 	})
 	run.Count("tick_to_price_monotone_steps", int(nonDecreasing.Load()))
-	run.Extra("exhaustive", "every tick in [-262143, 262143]: TickToPrice(t) and PriceToTick at ceil(price(t))-1, ceil(price(t)), ceil(price(t))+1 (where representable as uint64 >= 1)")
+	run.Extra("exhaustive_subspace", "every tick in [-262143, 262143]: TickToPrice(t) and PriceToTick at ceil(price(t))-1, ceil(price(t)), ceil(price(t))+1 (where representable as uint64 >= 1)")
 }
 
 // tickSanity: (1) the reference table walk agrees with exact 1.0001^t * 1e9 to 1e-9 relative on
